@@ -11,6 +11,12 @@
 #ifndef C05_ENV_H
 #define C05_ENV_H
 
+#if defined(C05_KEY_hsc) || defined(C05_KEY_hss)
+#define C05_ERRF(c)  ((c)->eng.err)
+#else
+#define C05_ERRF(c)  ((c)->err)
+#endif
+
 /* hbuf/hlen: any sub-region of a C05_HB-byte chunk (possibly empty) */
 #define C05_IN_REGION(hbuf_, hlen_) do { \
 		size_t off_ = ND_SIZE(), n_ = ND_SIZE(); \
@@ -80,6 +86,9 @@ c05_post(T0N_CTXT *c, unsigned op)
 
 /* ================================================================== x509 minimal */
 #if defined(C05_KEY_x509min)
+#ifndef C05_KB
+#define C05_KB 12
+#endif
 static size_t c05_dnhash_len;
 static void c05_h_init(const br_hash_class **hc) { (void)hc; }
 static void c05_h_update(const br_hash_class **hc, const void *data, size_t len) { (void)hc; c05_need_r(data, len); }
@@ -240,6 +249,9 @@ c05_env(T0N_CTXT *c)
 	{ size_t i; for (i = 0; i + 1 < sizeof c05_sname; i ++) c05_sname[i] = (char)ND_U8(); c05_sname[sizeof c05_sname - 1] = 0; }
 	if (ND_U8() & 1) { c->server_name = c05_sname; } else { c->server_name = 0; }
 	ASSUME(c05_inv(c));
+	/* bound for the leading-zero / comparison loops over the EE key (check-direct-trust) */
+	ASSUME(c->pkey.key_type != BR_KEYTYPE_RSA || (c->pkey.key.rsa.nlen <= C05_KB && c->pkey.key.rsa.elen <= C05_KB));
+	ASSUME(c->pkey.key_type != BR_KEYTYPE_EC || c->pkey.key.ec.qlen <= C05_KB);
 }
 static void
 c05_post(T0N_CTXT *c, unsigned op)
